@@ -80,6 +80,11 @@ Theorem merge_total : forall p0 rest,
 Proof. exact merge_total_lemma. Qed.
 Print Assumptions merge_total.
 
+Theorem merge_no_panic : forall ps,
+  Forall (fun p => p_periodtype p <> None) ps -> merge ps <> MPanic.
+Proof. exact merge_no_panic_lemma. Qed.
+Print Assumptions merge_no_panic.
+
 (* -- valid: merging profiles that pass CheckValid yields a profile that passes CheckValid
    (ids are exactly 1..n in creation order; every reference resolves) -- *)
 Theorem merge_valid : forall ps q,
